@@ -143,6 +143,7 @@ _RB = {"quick": {"NK": 6, "NK2": 6, "K": "(0, 1, 2, 3, 4, 5, 6, 7)", "K2": "(0, 
        "thorough": {"NK": 12, "NK2": 6, "K": _ALLK, "K2": "(0, 1, 5)", "W3": "(i1 < 6 and i2 < 6 and i3 < 6)"}}
 # the other forms differ from $.a / $.a.b / $.a[0] only in the (concrete) path text: the second member's name ranges over a, b at quick
 _RB_ALT = {"quick": dict(_RB["quick"], NK2=2), "thorough": dict(_RB["thorough"], K2="(0, 1)")}
+_RB_MAIN = {"dot2": _RB, "dot1": {"quick": _RB["quick"], "thorough": _RB_ALT["thorough"]}, "idx0": {"quick": _RB["quick"], "thorough": _RB_ALT["thorough"]}}
 _RB_DEEP = {"quick": {"NK": 6, "NK2": 2, "K": "(0, 1, 4, 5, 6, 9, 10, 11)", "K2": "(0, 1)", "W3": "False"},
             "thorough": _RB_ALT["thorough"]}
 _RO = ["indefinite paths (wildcard, filter, slice, union, recursive descent) and the eval() of the third-party filter syntax",
@@ -153,7 +154,7 @@ _RO = ["indefinite paths (wildcard, filter, slice, union, recursive descent) and
 def _make_read(name, path, toks):
     deep = len(toks) >= 3
 
-    @condition(timeout={"quick": 90, "thorough": 1500}, bounds=_RB_DEEP if deep else (_RB if name in ("dot1", "dot2", "idx0") else _RB_ALT),
+    @condition(timeout={"quick": 90, "thorough": 1500}, bounds=_RB_DEEP if deep else (_RB_MAIN[name] if name in _RB_MAIN else _RB_ALT),
                functions=["state_engine_paths.apply_path", "state_engine_paths.apply_jsonpath", "jsonpath.jsonpath (third party)"],
                outside=_RO, note="read path " + path)
     def read(i1: int, i2: int, i3: int, s1: int, s2: int, w3: bool) -> bool:
@@ -394,13 +395,13 @@ def _wbounds(form):
     t = {"A": "'ab_'", "N": 2, "N2": 2 if two else 0, "I": 3 if idx else 0, "NS": 3, "K2": "(0, 1)", "K2A": "(0, 1)"}
     if two:
         q.update(K="(0, 1, 4, 5, 6)", RK="(0,)", NK3=2, K2A="(1,)")
-        t.update(K="(0, 1, 3, 4, 5, 6, 10, 11)", RK="(0,)", NK3=4, K2A="(1,)")
+        t.update(K="(0, 1, 3, 4, 5, 6, 10, 11)", RK="(0,)", NK3=2, K2A="(1,)")
     elif idx:
         q.update(K="(0, 1, 4, 5, 6, 7)", RK="(0,)", NK3=2)
-        t.update(K="(0, 1, 3, 4, 5, 6, 7, 9, 10)", RK="(0, 1)", NK3=6)
+        t.update(K="(0, 1, 3, 4, 5, 6, 7, 9, 10)", RK="(0,)", NK3=6)
     else:
         q.update(K="(0, 1, 3, 4, 5, 6, 7)", RK="(0, 1)", NK3=6)
-        t.update(A="'ab_0'", K=_ALLK, RK="(0, 1, 2)", NK3=12)
+        t.update(A="'ab_0'", K=_ALLK, RK="(0, 1)", NK3=6)
     if form in ("idxdot", "dot3"):
         t.update(A="'ab'", K="(0, 1, 4, 5, 6, 7, 9, 10)" if form == "idxdot" else "(0, 1, 4, 5, 6, 10, 11)")
     return {"quick": q, "thorough": t}
